@@ -121,6 +121,22 @@ func checkC08(c *hx.Checker) {
 					exp, err := ref.Transpose(data, p, true)
 					add("Transpose", []hx.Attr{hx.AInts("perm", p...)}, []*ref.T{data}, exp, err, true, v.route, nil, "bad"+fmt.Sprint(p))
 				}
+				// numpy-style negative entries (p[i]-rank): not part of ONNX; either refused or taken for the entry they
+				// denote - never another arrangement
+				if r <= 3 {
+					for _, p0 := range perms(r) {
+						for mask := 1; mask < 1<<r; mask++ {
+							pn := append([]int64{}, p0...)
+							for i := range pn {
+								if mask&(1<<i) != 0 {
+									pn[i] -= int64(r)
+								}
+							}
+							exp, err := ref.Transpose(data, p0, true)
+							add("Transpose", []hx.Attr{hx.AInts("perm", pn...)}, []*ref.T{data}, exp, err, false, v.route, nil, "negative-entries"+fmt.Sprint(pn), "negative-perm-entries")
+						}
+					}
+				}
 				exp, err := ref.Transpose(data, nil, false)
 				add("Transpose", nil, []*ref.T{data}, exp, err, false, v.route, nil, "perm-absent")
 			}
@@ -220,6 +236,11 @@ func checkC08(c *hx.Checker) {
 								}
 							} else {
 								extra = append(extra, "step=0")
+							}
+							if err == nil && exp.Shape[ax] == 0 && st >= 0 && st < int64(dim) && en >= 0 {
+								// the empty selections the pinned tree answers (KF-C08-3): start inside the axis, end not
+								// negative; every other empty selection (start beyond the axis, negative bounds) is refused today
+								extra = append(extra, "empty-with-start-inside-axis")
 							}
 							desc := fmt.Sprintf("ax=%d %d:%d:%d", ax, st, en, sp)
 							// axes given (positive)
@@ -440,6 +461,9 @@ func checkC08(c *hx.Checker) {
 					if e < 0 {
 						extra = append(extra, "step<0")
 					}
+					if err == nil && exp.Shape[0] == 0 && se[0] >= 0 && se[0] < int64(sh[0]) && se[1] >= 0 {
+						extra = append(extra, "empty-with-start-inside-axis")
+					}
 					add("Slice", nil, []*ref.T{data, ref.I64Vec(se[0]), ref.I64Vec(se[1]), ref.I64Vec(0), ref.I64Vec(e)}, exp, err, e >= 1 && err == nil && ref.NElem(exp.Shape) > 0, rt, nil, fmt.Sprintf("%d:%d:%d", se[0], se[1], e), extra...)
 				}
 			}
@@ -466,6 +490,9 @@ func checkC08(c *hx.Checker) {
 				spec := ref.SliceSpec{Start: se[0], End: se[1], Step: se[2], Axis: int64(ax)}
 				exps, errs := ref.Slice(data, []ref.SliceSpec{spec})
 				extra := []string{"large"}
+				if errs == nil && ref.NElem(exps.Shape) == 0 && se[0] >= 0 && se[0] < dim && se[1] >= 0 {
+					extra = append(extra, "empty-with-start-inside-axis")
+				}
 				if errs == nil {
 					an := (ax + r) % r
 					if exps.Shape[an] == 1 {
